@@ -92,7 +92,7 @@ def data_strat(cfg, numbers):
 
 
 @st.composite
-def history_case(draw):
+def history_case(draw, big=False):
     cfg = draw(el_config())
     numkind = draw(st.sampled_from(["int", "float", "float", "huge"]))
     if cfg["el"] in ("Count", "StoreFilled", "GroupBy", "Histogram", "VMC"):
@@ -100,7 +100,7 @@ def history_case(draw):
         numkind = "int" if numkind == "huge" else numkind
     numbers = {"int": small_ints, "float": nice_floats,
                "huge": st.one_of(huge_floats, nice_floats)}[numkind]
-    max_ops = 12 if numkind == "huge" else 30
+    max_ops = 12 if numkind == "huge" else (80 if big else 30)
     ops = []
     n = draw(st.integers(0, max_ops))
     nfill_huge = 0
@@ -456,7 +456,7 @@ def _compare_twin(cfg, got, tw, filled):
 
 
 CHECKS = [
-    Check("histories", judge_history, strategy=lambda tier: history_case(), quick=4000, thorough=150000,
+    Check("histories", judge_history, strategy=lambda tier: history_case() if tier != "thorough" else st.one_of(history_case(), history_case(big=True)), quick=4000, thorough=150000,
           rule="element configuration x history of 0-30 ops fill|compute|reset (ints, floats of mixed magnitude, vectors, coordinates; bare or with context); "
                "after every compute: independent aggregate and context of the last value; after a reset a fresh twin receives the same ops and must agree. "
                "Non-trivial = a reset after >=1 fill followed by fill+compute, or a float multiset where naive summation differs from the exact sum (DSum)."),
